@@ -330,6 +330,7 @@ func (l *stringLeafNode) unlock() { l.mutex.Unlock() }
 type StringTree struct {
 	root  stringNode
 	order int
+	mutex sync.Mutex // guards root; held only until the root node is locked
 }
 
 // NewStringTree returns a newly initialized StringTree of the specified
@@ -349,6 +350,8 @@ func NewStringTree(order int) (*StringTree, error) {
 
 // Delete removes the key-value pair from the tree.
 func (t *StringTree) Delete(key string) {
+	t.mutex.Lock()
+	defer t.mutex.Unlock()
 	t.root.lock()
 	defer t.root.unlock()
 
@@ -367,6 +370,7 @@ func (t *StringTree) Delete(key string) {
 // Insert inserts the key-value pair into the tree, replacing the existing value
 // with the new value if the key is already in the tree.
 func (t *StringTree) Insert(key string, value interface{}) {
+	t.mutex.Lock()
 	n := t.root
 	n.lock()
 
@@ -389,6 +393,7 @@ func (t *StringTree) Insert(key string, value interface{}) {
 			n = right
 		}
 	}
+	t.mutex.Unlock()
 
 	for n.isInternal() {
 		parent := n.(*stringInternalNode)
@@ -466,8 +471,10 @@ func (t *StringTree) Insert(key string, value interface{}) {
 func (t *StringTree) Search(key string) (interface{}, bool) {
 	var value interface{}
 	var ok bool
+	t.mutex.Lock()
 	n := t.root
 	n.lock()
+	t.mutex.Unlock()
 	for n.isInternal() {
 		parent := n.(*stringInternalNode)
 		child := parent.children[stringSearchLessThanOrEqualTo(key, parent.runts)]
@@ -496,6 +503,7 @@ func (t *StringTree) Search(key string) (interface{}, bool) {
 // returns, the key will exist in the tree with the new value returned by the
 // callback function.
 func (t *StringTree) Update(key string, callback func(interface{}, bool) interface{}) {
+	t.mutex.Lock()
 	n := t.root
 	n.lock()
 
@@ -518,6 +526,7 @@ func (t *StringTree) Update(key string, callback func(interface{}, bool) interfa
 			n = right
 		}
 	}
+	t.mutex.Unlock()
 
 	for n.isInternal() {
 		parent := n.(*stringInternalNode)
@@ -602,8 +611,10 @@ func (t *StringTree) Update(key string, callback func(interface{}, bool) interfa
 // of the locked node. The leaf node is only unlocked either by closing the
 // Cursor, or after all key-value pairs have been visited using Scan.
 func (t *StringTree) NewScanner(key string) *StringCursor {
+	t.mutex.Lock()
 	n := t.root
 	n.lock()
+	t.mutex.Unlock()
 	for n.isInternal() {
 		parent := n.(*stringInternalNode)
 		child := parent.children[stringSearchLessThanOrEqualTo(key, parent.runts)]
